@@ -990,6 +990,8 @@ def spell_templates():
         t[n] = bina
     for n in ("divide", "floor_divide", "remainder", "divmod", "power"):
         t[n] = binc
+    for n in ("divide", "floor_divide", "remainder", "divmod"):
+        t[n + "#poly"] = bina              # a non-constant divisor: both spellings refuse, with the same exception
     for n in ("concatenate", "stack", "hstack", "vstack", "dstack"):
         t[n] = seq
     t["inner"] = t["outer"] = lambda f, o: f(o.v, o.w)
@@ -1023,8 +1025,9 @@ def _spell(p):
     def run(a, b, v, w, t, s, c, d):
         o = types.SimpleNamespace(a=a, b=b, v=v, w=w, t=t, s=s, c=c, d=d)
         # the numpy callable as registered (numpy.linalg.det, ...) against the public numpoly function of that name
-        keys = [k for k in numpoly.FUNCTION_COLLECTION if k.__name__ == name]
-        numpy_f, numpoly_f = keys[0], getattr(numpoly, name)
+        base = name.split("#")[0]
+        keys = [k for k in numpoly.FUNCTION_COLLECTION if k.__name__ == base]
+        numpy_f, numpoly_f = keys[0], getattr(numpoly, base)
         with warnings.catch_warnings():
             warnings.simplefilter("ignore")
             try:
@@ -1032,7 +1035,11 @@ def _spell(p):
                 np_out, np_proj = "ret", [P.project(r if not isinstance(r, (numpy.dtype, type)) else str(r)) for r in ref]
             except Exception as exc:  # noqa: BLE001
                 np_out, np_proj = "raise", [P.project_exception(exc)]
-            out = _flatten_results(template(numpoly_f, o))
+            try:
+                out = _flatten_results(template(numpoly_f, o))
+            except Exception as exc:  # noqa: BLE001 - recorded as the outcome, together with what numpy's spelling did
+                exc.verif_fields = {"np": np_proj, "np_out": np_out}
+                raise
         return Extra(Multi([r if not isinstance(r, (numpy.dtype, type)) else str(r) for r in out]), np=np_proj, np_out=np_out)
     return run
 
